@@ -82,6 +82,21 @@ Lemma decompressL_trace : forall (z : zoracle) s,
   snd (decompressL z s) = [EvInflate (is_wrapped s) s (zip_max_size + 1)].
 Proof. reflexivity. Qed.
 
+Lemma decompress_seq_stateless : forall (z : zoracle) pre s post,
+  nth_error (decompress_seq z (pre ++ s :: post)) (length pre) = Some (decompress z s).
+Proof.
+  intros z pre s post. unfold decompress_seq. rewrite map_app.
+  rewrite nth_error_app2; rewrite map_length; [|apply Nat.le_refl].
+  rewrite Nat.sub_diag. reflexivity.
+Qed.
+
+Lemma decompress_seq_bound : forall (z : zoracle) l v,
+  In (Ok v) (decompress_seq z l) -> blen v <= zip_max_size.
+Proof.
+  intros z l v H. unfold decompress_seq in H. apply in_map_iff in H.
+  destruct H as [s [E _]]. eapply decompress_bound; eauto.
+Qed.
+
 (* what the model does with the answer, whatever eof says *)
 Lemma decompress_ignores_eof : forall (z : zoracle) s out e,
   z (is_wrapped s) s (zip_max_size + 1) = Ok (out, false, e) ->
